@@ -176,6 +176,7 @@ func plan() harness.Plan {
 		return harness.Plan{Prop: "C10", Suppress: findings.Suppressor("C10"), Checks: []harness.Check{
 		{Name: "render", Quick: 30000, Thorough: 400000, Gen: genCase(gen.Doc()), Prop: prop, Rule: rule},
 		{Name: "render_html", Quick: 15000, Thorough: 200000, Gen: genCase(gen.HTMLSoup()), Prop: prop, Rule: "raw-HTML-heavy inputs (comments, CDATA, upper/mixed-case tag names of equal lengths, raw-text elements): " + rule},
+		{Name: "render_sinks", Quick: 15000, Thorough: 200000, Gen: genCase(gen.Sink()), Prop: prop, Rule: "hostile payloads (quotes, references, percent escapes, NUL, invalid UTF-8, white-space references) placed where text reaches an attribute or an element (destinations, titles, info strings, alt text, autolinks, list starts): " + rule},
 		{Name: "render_lines", Quick: 15000, Thorough: 200000, Gen: genCase(gen.Lines()), Prop: prop, Rule: "G2 only: " + rule},
 	}}
 }
